@@ -195,14 +195,14 @@ func (rs *bodyStream) Read(p []byte) (int, error) {
 
 	// read from the wire
 	m := len(p) - n
-	remain := rs.contentLength - rs.offset
-
-	if m > remain {
+	// never read past the end of a fixed-size body: the bytes behind it
+	// belong to the next message on the connection
+	if remain := rs.contentLength - rs.offset; rs.contentLength >= 0 && m > remain {
 		m = remain
 	}
 
 	if conn, ok := rs.reader.(io.Reader); ok {
-		m, err = conn.Read(p[n:])
+		m, err = conn.Read(p[n : n+m])
 	} else {
 		var tmp []byte
 		tmp, err = rs.reader.Peek(m)
